@@ -166,6 +166,30 @@ CLAIMS = {
              'accepted entry point shows no mutation), external calls are pure by whitelist; Tree.fit tau_matrix is a recorded finding',
         tech='Lean 4 soundness proof of an effect checker over a translator-regenerated IR + dynamic snapshot correspondence',
         ref='5 C20'),
+    'C03': dict(
+        text='Lean 4 theorems about definitions regenerated from base.py / gaussian_kde.py: the constant model is the point '
+             'mass (step CDF, ppf and sample = c), every ScipyModel query forwards the one parameter dict, so a coherent scipy '
+             'family yields all C03 laws incl. integral of pdf = CDF increment and ppf as generalised inverse; the selecting '
+             'wrapper delegates; KDE CDF (any CDF-like Phi, weights, bandwidth, data): monotone, <= 1, exactly 0 at the lower '
+             'bound, >= -deficit with the deficit bounded by Phi(-5 sigma/h), limits, derivative = kernel density; '
+             'percent_point pre-processing (range error, +-inf mapping), residual signs at the bracket, root existence (IVT), '
+             'monotonicity; tied by translation validation (own erfc-based Phi, 1e-14) and bitwise forwarding checks.',
+        note='scipy family coherence is a hypothesis structure validated on a grid each run; the KDE range clause holds only up '
+             'to the truncation deficit (stated exactly); the upper-bracket clause is false near 1 (recorded finding)',
+        tech='Lean 4 proof over translator-regenerated definitions + translation validation at Float', ref='5 C03'),
+    'C17': dict(
+        text='Lean 4 theorems about a plan-term model of the vine data flow: stored pseudo-observations are strictly inside '
+             '(0,1) for every input (clamp), each edge takes from its parents the pseudo-observation of its own conditioned '
+             'variable and get_likelihood reads only cells written one level below - both under the explicit hypothesis the code '
+             'assumes (child.L in parents[0]) with kernel-checked counter-examples on a 4-variable direct vine where it fails - '
+             'likelihood = sum of log pair-copula densities at the h-propagated arguments and deterministic under that '
+             'hypothesis, sampling visits every variable exactly once (n rows, training columns); tied bit-for-bit by '
+             'interpreting the plan with the real bivariate objects (select_copula inputs, edge.U, likelihood under two '
+             'np.empty sentinels, _sample_row under a seed).',
+        note='the parent-order assumption failing on direct/regular vines is a recorded finding (two classes); statistical '
+             'agreement for two-column tables only in deep search',
+        tech='Lean 4 proof over a hand-written plan-term model + bit-exact plan interpretation on real fitted vines',
+        ref='5 C17'),
 }
 
 
